@@ -158,6 +158,86 @@ def run(src, tier, seed):
                 res.bad(r, 'assert-polarity', fx.loc(al), 'THandler::assertLits asserts %s for the trail literal %s' % (asserted, show(L('a', lneg))))
     except Unmodelled as e:
         raise AnalysisBroken('THandler::assertLits is outside the modelled subset: %s' % e)
+    # ---- R5 array lemmas: replacing a term by its e-graph representative is justified in the explanation
+    r = res.rule('representative-use-justified', 'in the array solver\'s functions that fill an explanation collection: once the representative r = getRoot(x) of a parameter x is handed on to '
+                 'another call, every path to the exit has recorded the e-graph explanation of x = r (or has established x == r): otherwise the lemma built from the collection lacks the '
+                 'literals that make x and r equal and is not valid in the theory of arrays', floor=1)
+    from walk import Client, Engine
+    from prims import as_assign, mname
+
+    class RootUse(Client):
+        def __init__(self, params):
+            self.params = params
+            self.exits = []
+
+        def on_decl(self, n, s):
+            i = see_through(n.get('init')) if n.get('init') is not None else None
+            if isinstance(i, dict) and i.get('k') == 'call' and mname(i) == 'getRoot' and i.get('a') and path_of(i['a'][0]) in self.params:
+                pairs, used, done = s
+                return ((pairs | {(path_of(i['a'][0]), n['n'])}, used, done),)
+            return (s,)
+
+        def on_cond(self, atom, s, branch):
+            a = see_through(atom)
+            pairs, used, done = s
+            if isinstance(a, dict) and a.get('op') in ('!=', '=='):
+                l = a.get('l') if a.get('k') == 'bin' else (a.get('recv') if a.get('recv') is not None else (a.get('a') or [None, None])[0])
+                r_ = a.get('r') if a.get('k') == 'bin' else ((a.get('a') or [None])[0] if a.get('recv') is not None else (a.get('a') or [None, None])[1])
+                pl, pr = path_of(l), path_of(r_)
+                for (x, rt) in pairs:
+                    if {pl, pr} == {x, rt}:
+                        equal = (a['op'] == '==') == branch
+                        if equal:
+                            return (pairs, used, done | {(x, rt)})
+            return s
+
+        def on_call(self, n, s):
+            pairs, used, done = s
+            args = [path_of(x) for x in (n.get('a') or [])]
+            if mname(n) == 'recordExplanationOfEgraphEquivalence':
+                for (x, rt) in pairs:
+                    if x in args and rt in args:
+                        done = done | {(x, rt)}
+                return ((pairs, used, done),)
+            if mname(n) == 'getRoot':
+                return (s,)
+            for (x, rt) in pairs:
+                if rt in args and (x, rt) not in done:
+                    used = used | {(x, rt, n.get('ln'))}
+            return ((pairs, used, done),)
+
+        def on_assign(self, n, s):
+            # x = r : from here on x is the representative; earlier obligations stay
+            return (s,)
+
+        def on_exit(self, kind, node, s):
+            if kind != 'throw':
+                self.exits.append(s)
+    n_f = 0
+    for f in fx.F.values():
+        if not f.get('body') or not f['name'].startswith('opensmt::ArraySolver') or not any('ExplanationCollection' in (p_.get('t') or '') for p_ in f['params']):
+            continue
+        if not any(is_call(x, 'getRoot') for x in fwalk(f)):
+            continue
+        n_f += 1
+        c = RootUse({p_['n'] for p_ in f['params']})
+        eng = Engine(f, c)
+        eng.run([(frozenset(), frozenset(), frozenset())])
+        if eng.broken:
+            raise AnalysisBroken('%s: %s' % (f['name'], eng.broken))
+        bad = set()
+        for pairs, used, done in c.exits:
+            for (x, rt, ln) in used:
+                if (x, rt) not in done:
+                    bad.add((x, rt, ln))
+        if bad:
+            x, rt, ln = sorted(bad, key=str)[0]
+            res.bad(r, 'representative-unjustified:%s' % f['name'].split('::')[-1], fx.loc(f, ln), '%s hands the representative `%s` of `%s` on (line %s) and can return without having recorded why the two are '
+                    'equal: the lemma built from the explanation collection then misses those literals and is not valid in the theory of arrays' % (f['name'], rt, x, ln))
+        else:
+            res.ok(r, '%s: every use of a representative is justified before the exit' % f['name'].replace('opensmt::', ''))
+    if n_f == 0:
+        raise AnalysisBroken('no array-solver function fills an explanation collection from representatives any more')
     seen = set()
     res.findings = [f_ for f_ in res.findings if not (f_.key in seen or seen.add(f_.key))]
     return res
